@@ -93,6 +93,11 @@ def jobs(tier):
         for state in ('normal_immediate', 'cannot_claim', 'bypassed'):
             for entry in ('send_pgn', 'send_message', 'send_request', 'dm22'):
                 out.append(Job('C13', 'c13:h_send', {'state': state, 'entry': entry, 'addr': addr0}, W=40, wall=120, validate=1))
+    # arbitrary-address-capable CAs losing an address whose successor is in the immediate range (100 -> 101, 252 -> 253)
+    for addr0 in (100, 252):
+        for state in ('lost_waiting', 'moved', 'moved_lost_waiting') + (('moved_twice',) if addr0 == 100 else ()):
+            for entry in ('send_pgn', 'send_message', 'send_request'):
+                out.append(Job('C13', 'c13:h_send', {'state': state, 'entry': entry, 'addr': addr0}, W=40, wall=120, validate=1))
     # the contender that takes the address away has a symbolic NAME (any value lower than ours)
     for state in ('lost_waiting', 'moved', 'moved_lost_waiting', 'moved_twice', 'cannot_claim'):
         for entry in ('send_pgn', 'send_message', 'send_request'):
